@@ -3,6 +3,7 @@ CONSTANTS
   MaxLen <- QMaxLen
   Alphabets <- MCAlphabets
   Extra = 2
+  RepMax = 9
   Export = TRUE
 INVARIANT Inv
 CHECK_DEADLOCK FALSE
